@@ -652,7 +652,7 @@ func viewBattery(p *Plan) []string {
 	b := []string{"sort:ftime", "sort:id", "sort:-ltime,id limit:4", "sport:80,443 sort:id", "data:\"FLAG\" sort:id", "data.none:\"alpha\" sort:id", "protocol:udp sort:id", "cbytes:100: sort:-id"}
 	for _, off := range []int64{10, 75} {
 		t := time.Unix(p.Net.BaseUnix+off, 0).UTC().Format("2006-01-02 150405")
-		b = append(b, fmt.Sprintf("ltime:\"%s:\" sort:id", t), fmt.Sprintf("ftime:\":%s\" sort:id", t))
+		b = append(b, fmt.Sprintf("ltime:\"%s:\" sort:id", t), fmt.Sprintf("ltime:\":%s\" sort:id", t), fmt.Sprintf("ftime:\":%s\" sort:id", t), fmt.Sprintf("ftime:\"%s:\" sort:id", t))
 	}
 	return b
 }
